@@ -48,6 +48,10 @@ pub struct Stats {
     /// (run index, history hash, decision-list hash) when VERIF_DUMP_HASHES is set
     #[serde(default)]
     pub run_hashes: Vec<(u64, u64, u64)>,
+    /// set when the worker gave up its chunk early (too many threads leaked by deadlocked runs,
+    /// or violations already in hand): the first run index it did not execute
+    #[serde(default)]
+    pub next_from: Option<u64>,
 }
 
 impl Stats {
@@ -205,7 +209,15 @@ pub fn run_chunk(prop: &str, batch_seed: u64, from: u64, to: u64, fixed_family: 
     let hunt = std::env::var("VERIF_HUNT").ok();
     let dump = std::env::var("VERIF_DUMP_HASHES").is_ok();
     let mut st = Stats::default();
+    // threads parked for ever by deadlocked runs stay with this process until it exits
+    let mut leaked_threads = 0usize;
     for i in from..to {
+        if leaked_threads > 1500 || st.violations_total >= 8 {
+            // hand the rest of the chunk back: a fresh process starts without the leaked threads
+            // (the batch stops anyway once a violation has been reported)
+            st.next_from = Some(i);
+            break;
+        }
         let fam = fixed_family.unwrap_or_else(|| family_of(p, batch_seed, i));
         let seed = run_seed(batch_seed ^ fnv(fam.as_bytes()), i);
         let prog = crate::gen::generate(fam, seed);
@@ -228,6 +240,9 @@ pub fn run_chunk(prop: &str, batch_seed: u64, from: u64, to: u64, fixed_family: 
         }
         for (k, n) in &rec.out.faults {
             *st.faults.entry(k.to_string()).or_default() += n;
+        }
+        if matches!(rec.out.end, simrt::End::Deadlock | simrt::End::Leaked) {
+            leaked_threads += rec.out.blocked.len();
         }
         match rec.out.end {
             simrt::End::StepLimit => *st.inconclusive.entry("step_limit".into()).or_default() += 1,
